@@ -1009,6 +1009,8 @@ class PX:
                         return Member(b.cls, attr, v)
                     if not isinstance(v, Unknown) and v is not None:
                         return v
+            if attr == "replace" and isinstance(b.cls, ClassRef) and "BaseDataclassMixin" in b.cls.base_names():
+                return _DCReplace(b)  # trusted base: zigpy's BaseDataclassMixin.replace is dataclasses.replace
             v = Sym(f"{b.tag}.{attr}")
             b.fields[attr] = v
             return v
@@ -1602,6 +1604,10 @@ class PX:
             if awaited:
                 self.epoch += 1
             return r
+        if isinstance(fval, _DCReplace):
+            o = Obj(fval.obj.cls, {**fval.obj.fields, **kw}, tag=fval.obj.tag)
+            self.emit("call", text, args, kw, node=node, frame=fr, extra=o)
+            return o
         if isinstance(fval, Partial):
             return self.do_call(fval.f, text, list(fval.args) + list(args), {**fval.kwargs, **kw}, fr, node, awaited)
         if isinstance(fval, _PyMethod):
@@ -1698,6 +1704,11 @@ class PX:
             for a in args:
                 out.extend(self._concrete_iter(a, fr, node))
             return out
+        if isinstance(fval, FuncRef) and fval.cls is not None and not _is_static(fval) and not _is_classmethod(fval) and args \
+                and isinstance(args[0], (Obj, Sym, NT, Member)):
+            # a plain function taken from the class (dispatch table of methods, ``Class.method(obj, ...)``): the first
+            # positional argument is the receiver
+            fval, args = Bound(args[0], fval), list(args[1:])
         if isinstance(fval, (Bound, FuncRef, Closure)):
             target = fval.func if isinstance(fval, Bound) else fval
             is_async = isinstance(target.node, ast.AsyncFunctionDef)
@@ -2156,6 +2167,11 @@ def int_type_of(t):
         if m:
             return int(m.group(2)), (m.group(1) == "" and m.group(3) == "s") or (m.group(1) == "" and m.group(3) == "_t" and False)
     return None
+
+
+class _DCReplace:
+    def __init__(self, obj):
+        self.obj = obj
 
 
 class _PyMethod:
